@@ -122,3 +122,50 @@ Proof.
     cbn -[add3]. rewrite !add3_val. reflexivity.
   - rewrite map_repeat. reflexivity.
 Qed.
+
+(* ---------------------------------------------------------------- second order, test-particle variation *)
+Definition cclifts (ps : list (Part R)) : list (Part DD) :=
+  map (fun p => ddlift p (Z0P RNum) (Z0P RNum) (Z0P RNum)) ps.
+Lemma nth_cclifts ps j :
+  nth_d (Z0P DDR) (cclifts ps) j = ddlift (nth_d (Z0P RNum) ps j) (Z0P RNum) (Z0P RNum) (Z0P RNum).
+Proof.
+  unfold cclifts. change (Z0P DDR) with ((fun p => ddlift p (Z0P RNum) (Z0P RNum) (Z0P RNum)) (Z0P RNum)).
+  now rewrite nth_d_map.
+Qed.
+
+Lemma var2_tp_step_dual (G : R) ps (x y z ax ay az bx by_ bz wx wy wz : R) i j (aD : DD3) :
+  (x, y, z) = (px (nth_d (Z0P RNum) ps i), py (nth_d (Z0P RNum) ps i), pz (nth_d (Z0P RNum) ps i)) ->
+  sep2 (nth_d (Z0P RNum) ps i) (nth_d (Z0P RNum) ps j) <> 0 ->
+  mix3 (acc_on_step DDR (GDD G) (cclifts ps) (dd x ax bx wx, dd y ay by_ wy, dd z az bz wz) j aD)
+  = var2_tp_step RNum G ps (wx, wy, wz) (ax, ay, az) (bx, by_, bz) i j (mix3 aD).
+Proof.
+  intros Exyz Hne. unfold acc_on_step, var2_tp_step. rewrite nth_cclifts.
+  destruct (nth_d (Z0P RNum) ps i) as [mi xi yi zi]. destruct (nth_d (Z0P RNum) ps j) as [mj xj yj zj].
+  cbn in Exyz. injection Exyz as -> -> ->.
+  destruct aD as [[[[a1 a2] [a3 a4]] [[b1 b2] [b3 b4]]] [[c1 c2] [c3 c4]]].
+  remember (sep2 (mkP mi xi yi zi) (mkP mj xj yj zj)) as r2 eqn:Er2.
+  assert (Hr2 : 0 <= r2) by (subst r2; apply sep2_nonneg).
+  cbn. unfold sep2 in Er2. cbn in Er2. rewrite <- Er2.
+  remember (sqrt r2) as s eqn:Es.
+  assert (Hs : s * s = r2) by (subst s; apply sqrt_sqrt; exact Hr2).
+  assert (Hs0 : s <> 0) by (intros E; apply Hne; rewrite <- Hs, E; ring).
+  clear Es Hr2 Hne. rewrite <- Hs. clear Hs Er2 r2.
+  unfold dd_mix. cbn.
+  f_equal; [f_equal|]; field; exact Hs0.
+Qed.
+
+Theorem var2_testparticle_is_mixed_dual_part (G : R) (ps : list (Part R)) (ax ay az bx by_ bz wx wy wz : R) (i : nat) :
+  (forall j, (j < length ps)%nat -> j <> i ->
+             sep2 (nth_d (Z0P RNum) ps i) (nth_d (Z0P RNum) ps j) <> 0) ->
+  let pi := nth_d (Z0P RNum) ps i in
+  mix3 (acc_on DDR (GDD G) 0 (cclifts ps) (dd (px pi) ax bx wx, dd (py pi) ay by_ wy, dd (pz pi) az bz wz) i)
+  = grav_var2_tp RNum G ps (wx, wy, wz) (ax, ay, az) (bx, by_, bz) i.
+Proof.
+  intros Hd pi. unfold acc_on, grav_var2_tp.
+  replace (length (cclifts ps)) with (length ps) by (unfold cclifts; now rewrite map_length).
+  apply (for_range_rel (fun (aD : DD3) a => mix3 aD = a)); [|reflexivity].
+  intros j aD a Hj E.
+  assert (Esk : tp_skip 0 i j = Nat.eqb i j) by (unfold tp_skip; cbn; now rewrite !orb_false_r).
+  rewrite Esk. destruct (Nat.eqb_spec i j) as [->|Hne]; [exact E|].
+  rewrite <- E. apply var2_tp_step_dual; [reflexivity|]. apply Hd; [lia|]. intros ->. now apply Hne.
+Qed.
